@@ -531,10 +531,12 @@ func (u *Upgrader) Upgrade(w http.ResponseWriter, r *http.Request, responseHeade
 		return nil, err
 	}
 
+	// wsc.Conn is the connection that is read from now on: the hijacked
+	// conn is closed already if it was transferred to the poller.
 	if u.KeepaliveTime > 0 {
-		_ = conn.SetReadDeadline(time.Now().Add(u.KeepaliveTime))
+		_ = wsc.SetReadDeadline(time.Now().Add(u.KeepaliveTime))
 	} else {
-		_ = conn.SetReadDeadline(time.Time{})
+		_ = wsc.SetReadDeadline(time.Time{})
 	}
 
 	if wsc.openHandler != nil {
